@@ -324,6 +324,14 @@ func (fc *FuncCtx) havocClosureArgs(fr *Frame, st *State, call *ssa.CallCommon) 
 		if !ok {
 			continue
 		}
+		fc.havocClosure(fr, st, mc, "effects of the function literal passed to "+call.String()+" are havocked after the call")
+	}
+}
+
+// havocClosure gives an arbitrary value to every captured local of this frame that the function literal assigns
+// and to every heap array it may write
+func (fc *FuncCtx) havocClosure(fr *Frame, st *State, mc *ssa.MakeClosure, why string) {
+	{
 		cf := mc.Fn.(*ssa.Function)
 		cells := map[*ssa.Alloc]bool{}
 		mi := &modInfo{heaps: map[string]bool{}}
@@ -345,7 +353,7 @@ func (fc *FuncCtx) havocClosureArgs(fr *Frame, st *State, call *ssa.CallCommon) 
 				}
 			}
 		}
-		fc.note("effects of the function literal passed to " + call.String() + " are havocked after the call")
+		fc.note(why)
 		if mi.allocs {
 			na := Fresh("alloc.clo", SInt)
 			st.assume(Le(st.alloc, na))
@@ -508,6 +516,10 @@ func hasLoop(f *ssa.Function) bool {
 
 // callByContract: assert pre, havoc the frame, assume post.
 func (fc *FuncCtx) callByContract(fr *Frame, st *State, callee *ssa.Function, c *Contract, sig *types.Signature, args []Val, pos token.Pos, name string, assumed bool) Val {
+	if strings.HasSuffix(name, "sync.WaitGroup).Wait") && len(fr.spawned) > 0 {
+		// the goroutines this frame started may have run until now
+		fc.rehavocSpawned(fr, st)
+	}
 	env := &Env{p: fc.p, vars: map[string]SVal{}, cur: st}
 	if callee != nil && callee.Pkg != nil {
 		env.pkg = callee.Pkg.Pkg
